@@ -136,6 +136,19 @@ class LeaseCheckingCrawler(ShareCrawler):
         # the keys individually
         for k in so_far:
             self.state["cycle-to-date"].setdefault(k, so_far[k])
+        # A state file written in the middle of a cycle holds what get_state()
+        # reports: the lease-age histogram as a list of (minage, maxage,
+        # count), and JSON has turned the integer keys of the leases-per-share
+        # histogram into strings. Turn both back into what process_share()
+        # updates, or the cycle could not be resumed.
+        cycle_to_date = self.state["cycle-to-date"]
+        lah = cycle_to_date["lease-age-histogram"]
+        if isinstance(lah, list):
+            cycle_to_date["lease-age-histogram"] = dict(
+                [((minage, maxage), count) for (minage, maxage, count) in lah])
+        lpsh = cycle_to_date["leases-per-share-histogram"]
+        cycle_to_date["leases-per-share-histogram"] = dict(
+            [(int(k), v) for (k, v) in lpsh.items()])
 
     def create_empty_cycle_dict(self):
         recovered = self.create_empty_recovered_dict()
